@@ -132,16 +132,39 @@ class CCodeMapper(SimplifyingSortingStringifyMapper):
         return self.format("%s(%s)",
                 func, self.join_rec(", ", expr.parameters, PREC_NONE))
 
+    def _get_power_shortcut(self, expr):
+        """For powers with constant exponent 1 or 2, return the expression
+        that :meth:`map_power` prints in their place, otherwise *None*."""
+        from pymbolic.primitives import is_constant, is_zero
+        if is_constant(expr.exponent):
+            if is_zero(expr.exponent - 1):
+                return expr.base
+            elif is_zero(expr.exponent - 2):
+                return expr.base*expr.base
+
+        return None
+
+    def rec_with_force_parens_around(self, expr, *args, **kwargs):
+        from pymbolic.primitives import Power
+        if isinstance(expr, Power):
+            # Callers force parentheses based on the type of the node.
+            # Let them see what actually gets printed: otherwise
+            # 'a / b**2' becomes 'a / b * b'.
+            shortcut = self._get_power_shortcut(expr)
+            if shortcut is not None:
+                expr = shortcut
+
+        return super().rec_with_force_parens_around(expr, *args, **kwargs)
+
     def map_power(self, expr, enclosing_prec):
         from pymbolic.mapper.stringifier import PREC_NONE
         from pymbolic.primitives import is_constant, is_zero
-        if is_constant(expr.exponent):
-            if is_zero(expr.exponent):
-                return "1"
-            elif is_zero(expr.exponent - 1):
-                return self.rec(expr.base, enclosing_prec)
-            elif is_zero(expr.exponent - 2):
-                return self.rec(expr.base*expr.base, enclosing_prec)
+        if is_constant(expr.exponent) and is_zero(expr.exponent):
+            return "1"
+
+        shortcut = self._get_power_shortcut(expr)
+        if shortcut is not None:
+            return self.rec(shortcut, enclosing_prec)
 
         return self.format("pow(%s, %s)",
                 self.rec(expr.base, PREC_NONE),
